@@ -33,6 +33,14 @@ def run_check(pid, repo, tier='quick'):
     return r.returncode, r.stdout + r.stderr
 
 
+def _restore(p, src):
+    if src is None:
+        if os.path.exists(p):
+            os.unlink(p)
+    else:
+        open(p, 'w').write(src)
+
+
 def main():
     only = None
     props_filter = None
@@ -61,6 +69,12 @@ def main():
             saved = {}
             ok_apply = True
             for (f, old, new) in edits:
+                if f.startswith('mv:'):
+                    src_p, dst_p = os.path.join(repo, old), os.path.join(repo, new)
+                    saved.setdefault(src_p, open(src_p).read())
+                    saved.setdefault(dst_p, None)
+                    os.rename(src_p, dst_p)
+                    continue
                 if f.startswith('re:'):
                     import re as _re
                     nsub = 0
@@ -89,7 +103,7 @@ def main():
                 open(p, 'w').write(src.replace(old, new))
             if not ok_apply:
                 for p, src in saved.items():
-                    open(p, 'w').write(src)
+                    _restore(p, src)
                 bad += 1
                 continue
             line = [m['id']]
@@ -120,7 +134,7 @@ def main():
             print('  '.join(line))
             results.append(line)
             for p, src in saved.items():
-                open(p, 'w').write(src)
+                _restore(p, src)
     finally:
         if os.path.isdir(evsave):
             shutil.rmtree(evdir, ignore_errors=True)
